@@ -438,6 +438,38 @@ func Eq(a, b *T) *T {
 		if b.Op == "uf" && b.Name == "trimspace" && a.IsConst() && a.Str == "" {
 			return InRe(b.Args[0], wsRe)
 		}
+		// a concatenation with more constant bytes than the whole constant it is compared with cannot equal it
+		for _, pr := range [][2]*T{{a, b}, {b, a}} {
+			x, c := pr[0], pr[1]
+			if c.IsConst() && x.Op == "str.++" {
+				n := 0
+				for _, p := range x.Args {
+					if p.IsConst() {
+						n += len(p.Str)
+					} else if p.FixLen > 0 {
+						n += p.FixLen
+					}
+				}
+				if n > len(c.Str) {
+					return tFalse
+				}
+			}
+			// comparison of a conditional with a constant: distribute when both arms are decided
+			if c.IsConst() && x.Op == "ite" {
+				l, r := Eq(x.Args[1], c), Eq(x.Args[2], c)
+				if l.IsConst() && r.IsConst() {
+					return Ite(x.Args[0], l, r)
+				}
+			}
+			// comparison of a conditional key with a key: distribute when both arms reduce to non-string conditions
+			if x.Op == "ite" && c.Op == "str.++" {
+				l, r := Eq(x.Args[1], c), Eq(x.Args[2], c)
+				plain := func(t *T) bool { return t.Op == "=" && t.Args[0].Sort.K == SStr }
+				if !plain(l) && !plain(r) {
+					return Ite(x.Args[0], l, r)
+				}
+			}
+		}
 		// differing constant prefixes decide disequality syntactically
 		pa, wa := constPrefix(a)
 		pb, wb := constPrefix(b)
@@ -456,6 +488,12 @@ func Eq(a, b *T) *T {
 		// same symbolic pieces (as a multiset) but different constant length: lengths differ, so the strings differ
 		if la, lb, ok := lenProfile(a), lenProfile(b), true; ok && la.sym == lb.sym && la.n != lb.n && la.sym != "?" {
 			return tFalse
+		}
+	}
+	if a.Sort.K == SStr && a.Op == "str.++" && b.Op == "str.++" {
+		// keys that spell 64-bit words big-endian at the same positions: compare the words as bit-vectors
+		if r, ok := wordEq(a, b); ok {
+			return r
 		}
 	}
 	if a.Sort.K == SBV {
@@ -588,6 +626,9 @@ func StrLen(s *T) *T {
 	if s.FixLen > 0 {
 		return IntConst(int64(s.FixLen))
 	}
+	if s.Op == "str.from_code" && s.Args[0].Op == "bv2nat" && s.Args[0].Args[0].Sort.W <= 8 {
+		return IntConst(1) // one byte
+	}
 	return mk("str.len", IntS, s)
 }
 
@@ -702,6 +743,49 @@ func StrSubstr(s, off, n *T) *T {
 		o, l := int(off.Int.Int64()), int(n.Int.Int64())
 		if o >= 0 && l >= 0 && o+l <= len(s.Args[0].Str) {
 			return StrConst(s.Args[0].Str[o : o+l])
+		}
+	}
+	// substr of a concatenation whose pieces all have known lengths, at constant positions: slice the pieces
+	if s.Op == "str.++" && off.IsConst() {
+		total := StrLen(s)
+		if total.IsConst() {
+			nn := n
+			if !nn.IsConst() {
+				// n = len(s) - off (slicing s[off:])
+				if d := IntSub(total, off); n == IntSub(StrLen(s), off) || n == d {
+					nn = d
+				}
+			}
+			if nn.IsConst() {
+				o, l := int(off.Int.Int64()), int(nn.Int.Int64())
+				tot := int(total.Int.Int64())
+				if o >= 0 && l >= 0 && o <= tot {
+					if o+l > tot {
+						l = tot - o
+					}
+					var out []*T
+					pos := 0
+					ok := true
+					for _, p := range s.Args {
+						pl := int(StrLen(p).Int.Int64())
+						lo, hi := max(o, pos), min(o+l, pos+pl)
+						if lo < hi {
+							switch {
+							case lo == pos && hi == pos+pl:
+								out = append(out, p)
+							case p.IsConst():
+								out = append(out, StrConst(p.Str[lo-pos:hi-pos]))
+							default:
+								ok = false
+							}
+						}
+						pos += pl
+					}
+					if ok {
+						return Concat(out...)
+					}
+				}
+			}
 		}
 	}
 	return mk("str.substr", StrS, s, off, n)
@@ -957,6 +1041,10 @@ func Select(arr, k *T) *T {
 			return a.Args[2]
 		}
 		if !e.IsFalse() {
+			if !(e.Op == "=" && e.Args[0].Sort.K == SStr) {
+				// the key comparison reduced to a non-string condition (big-endian words): keep it out of the array theory
+				return Ite(e, a.Args[2], Select(a.Args[0], k))
+			}
 			return mk("select", StrS, arr, k)
 		}
 		arr = a.Args[0]
